@@ -45,3 +45,50 @@ package asset
 //@ ensures[C06,C14] forall k :: 0 <= k && k < len(result) ==> result[k] == snapshots[k].Volume
 //@ ensures[C03] consumed(snapshots) == len(snapshots) && closed(result)
 //@ ensures[C04] forall k :: 0 <= k && k < len(result) ==> hor(result, k) <= hor(snapshots, k)
+
+// ---- InMemoryRepository: the abstract view is the map r.storage itself: name -> ordered list of snapshots (C10) ----
+//@ func NewInMemoryRepository
+//@ ensures[C10] forall n str :: !has(result.storage, n)
+
+//@ func InMemoryRepository.Get
+//@ ensures[C10] !has(r.storage, name) ==> result1 != nil && len(result0) == 0
+//@ ensures[C10] has(r.storage, name) ==> result1 == nil && len(result0) == len(r.storage[name]) && closed(result0) && consumed(result0) == 0
+//@ ensures[C10] has(r.storage, name) ==> (forall k :: 0 <= k && k < len(result0) ==> result0[k] == r.storage[name][k])
+
+// the filter predicate "dated on or after d" keeps exactly cntsince of the first k snapshots (induction on k)
+//@ lemma fcount_since(p func, A refslice, d int, k int)
+//@ requires[C10,C12] 0 <= k && k <= len(A) && (forall j :: 0 <= j && j < len(A) ==> p.ret(j) == (A[j].Date >= d))
+//@ ensures[C10,C12] fcount(p, k) == cntsince(A, d, k)
+//@ induction k
+
+// cntsince(S,d,k): how many of S[0..k-1] are dated on or after d: the position of S[k] in the filtered result
+//@ func InMemoryRepository.GetSince
+//@ ensures[C10] !has(r.storage, name) ==> result1 != nil
+//@ ensures[C10] has(r.storage, name) ==> result1 == nil && len(result0) == cntsince(r.storage[name], date, len(r.storage[name])) && closed(result0)
+//@ ensures[C10] has(r.storage, name) ==> (forall k :: 0 <= k && k < len(r.storage[name]) ==> (r.storage[name][k].Date >= date ==> result0[cntsince(r.storage[name], date, k)] == r.storage[name][k]))
+//@ use fcount_since(arg(Filter, 0, 1), r.storage[name], date)
+
+//@ func InMemoryRepository.LastDate
+//@ ensures[C10] !has(r.storage, name) ==> result1 != nil
+//@ ensures[C10] has(r.storage, name) && len(r.storage[name]) == 0 ==> result1 != nil
+//@ ensures[C10] has(r.storage, name) && len(r.storage[name]) > 0 ==> result1 == nil && result0 == r.storage[name][len(r.storage[name]) - 1].Date
+
+//@ func InMemoryRepository.Append
+//@ requires consumed(snapshots) == 0
+//@ modifies r
+//@ ensures[C10] result == nil && has(r.storage, name) && consumed(snapshots) == len(snapshots)
+//@ ensures[C10] len(r.storage[name]) == old(len(r.storage[name])) + len(snapshots)
+//@ ensures[C10] forall k :: 0 <= k && k < old(len(r.storage[name])) ==> r.storage[name][k] == old(r.storage[name][k])
+//@ ensures[C10] forall k :: 0 <= k && k < len(snapshots) ==> r.storage[name][old(len(r.storage[name])) + k] == snapshots[k]
+//@ ensures[C10] forall n str :: n != name ==> has(r.storage, n) == old(has(r.storage, n)) && sameslice(r.storage[n], old(r.storage[n]))
+//@ loop#0 invariant len(combined) == old(len(r.storage[name])) + consumed(snapshots)
+//@ loop#0 invariant forall k :: 0 <= k && k < old(len(r.storage[name])) ==> combined[k] == old(r.storage[name][k])
+//@ loop#0 invariant forall k :: 0 <= k && k < consumed(snapshots) ==> combined[old(len(r.storage[name])) + k] == snapshots[k]
+
+// every name that holds snapshots is listed exactly once (mapkey enumerates the key set), no other name is listed
+//@ func InMemoryRepository.Assets
+//@ ensures[C10] result1 == nil && len(result0) == len(r.storage)
+//@ ensures[C10] forall j :: 0 <= j && j < len(result0) ==> has(r.storage, result0[j]) && result0[j] == mapkey_Str(r.storage, j)
+//@ ensures[C10] forall n str :: has(r.storage, n) ==> result0[mapidx_Str(r.storage, n)] == n
+//@ loop#0 invariant len(assets) == idx0
+//@ loop#0 invariant forall j :: 0 <= j && j < idx0 ==> assets[j] == mapkey_Str(r.storage, j)
